@@ -238,7 +238,7 @@ Section Hof.
     assert (Hwmin : forall h, In h its -> fit_lt (fitness h) (fitness w) = false)
       by (intros h Hh; apply desc_last; assumption).
     destruct (fit_lt (fitness w) (fitness x) || (zlen its <? m)) eqn:Econd.
-    2:{ (* not admitted: full and not better than the worst *)
+    2:{ (* rejected: full and not better than the worst *)
       apply orb_false_iff in Econd. destruct Econd as [Ewx Efull].
       apply Z.ltb_ge in Efull. assert (Lm : zlen its = m) by lia.
       assert (Hx : forall h, In h its -> fit_lt (fitness h) (fitness x) = false).
